@@ -243,6 +243,8 @@ PROPS["C12"] = {
     "level": "proof",
     "widen": ("quick", 1),
     "streams": ["race"],
+    # the names stream carries a deterministic snapshot scenario (a shadowing Spec removed again: the device never resolves to nothing)
+    "secondary": {"names": {"ops": ["write"], "clauses": "resolves to nothing|not the one in force"}},
     "prebuild": [_core.build_race],
     "timeout": 3600,
     "trusted_base": ["factgen F9: the per-entry-point sequence of Lock/Unlock and accesses to the fields of Cache and watch, internal methods inlined, control flow flattened in source order (pkg/cdi/cache.go); the dirErrors parameter of the watch methods is the cache's dirErrors map",
